@@ -132,8 +132,8 @@ static void caller (void *a) {
 		vrt_note ("call %d %d %s %d %s", vrt_self (), use_mu, tm_str (dl, tb), nobj, desc);
 		r = deep_call (3, use_mu, dl, nobj, pw);
 		vrt_note ("ret %d %d", vrt_self (), r);
-		if (use_mu && (vrt_sh_get (UNLOCKS (vrt_self ())) - u0) != (vrt_sh_get (LOCKS (vrt_self ())) - l0)) vrt_fail ("C11", "unlock/lock callbacks unbalanced");
 		if (use_mu && vrt_holders (&mu, 1) != 1) vrt_fail ("C01", "nsync_wait_n returned without having re-acquired the mutex: the caller believes it holds it");
+		if (use_mu && (vrt_sh_get (UNLOCKS (vrt_self ())) - u0) != (vrt_sh_get (LOCKS (vrt_self ())) - l0)) vrt_fail ("C11", "unlock/lock callbacks unbalanced");
 	}
 	if (r < 0 || r > nobj) vrt_fail ("C11", "result %d out of range", r);
 	if (r < nobj) {
